@@ -39,9 +39,9 @@ TogetherSpec == Init /\ [][TogetherNext]_vars
 (* listeners across restarts: one that cannot bind while the teamserver starts, then a clean start *)
 RestartNext == \/ hist = <<>> /\ Add("n1", "http")
                \/ Len(hist) = 1 /\ \E k \in {"smb", "ext"} : Add("n2", k)
-               \/ Len(hist) = 2 /\ \E b \in BOOLEAN : Restart(b)
+               \/ Len(hist) = 2 /\ ((\E b \in BOOLEAN : Restart(b)) \/ Rm("n1") \/ Rm("n2"))      \* (a removal acknowledged just before the stop)
                \/ Len(hist) = 3 /\ Restart(FALSE)
-               \/ Len(hist) = 4 /\ Serve("n1", 0)
+               \/ Len(hist) = 4 /\ IF run["n1"] = "http" THEN Serve("n1", 0) ELSE Add("n1", "http")
 RestartSpec == Init /\ [][RestartNext]_vars
 DupNext == \/ hist = <<>> /\ SvcConnect("s1", TRUE)
            \/ Len(hist) = 1 /\ SvcConnect("s2", TRUE)
